@@ -47,3 +47,17 @@ package interp
 //@   opt ignore-contracts = newFrame
 //@   loop 1 index k
 //@   invariant last-entry-stored: k > 0 ==> has(i.env, envKey(options.Env[k-1])) && i.env[envKey(options.Env[k-1])] == envVal(options.Env[k-1])
+
+// ExpandEnv expands with the VIRTUAL environment (the getenv closure above), not with the host's; Environ
+// lists exactly the entries of interp.env as KEY=VALUE.
+//@ lit fixStdlib key:ExpandEnv (s) (r)
+//@   props C13
+//@   opt safety = off
+//@   ensures expands-with-the-virtual-environment: r == osExpandOp(s, getenv)
+//@   canary r == osExpandOp(s, hostGetenv)
+
+//@ lit fixStdlib key:Environ () (a)
+//@   props C13
+//@   opt safety = off
+//@   loop 1
+//@   step entry-of-the-virtual-environment-appended: has(interp.env, k) && v == interp.env[k] && len(a) == old(len(a)) + 1 && a[len(a)-1] == k + "=" + v
